@@ -44,3 +44,124 @@ pub fn over_budget(n: usize) -> bool {
 pub fn drain() -> Vec<Step> {
     STEPS.with(|s| std::mem::take(&mut *s.borrow_mut()))
 }
+
+// ---- recording of add_block calls made by the repository's own tests -------------------------
+//
+// With VERIF_REPO_TRACE=<file> in the environment every `TestManager::add_block` call appends
+// one JSON line: the block's attributes, the projected chain state before and after the call,
+// the result and the wind/unwind steps.  The lines of one blockchain instance carry its
+// address; a global sequence number orders them.
+
+use std::io::Write;
+use std::sync::atomic::{AtomicU64, Ordering};
+use std::sync::Mutex;
+
+use crate::core::consensus::block::Block;
+use crate::core::consensus::blockchain::{AddBlockResult, Blockchain};
+
+static SEQ: AtomicU64 = AtomicU64::new(0);
+static OUT: Mutex<()> = Mutex::new(());
+
+fn hx(b: &[u8]) -> String {
+    b.iter().map(|x| format!("{:02x}", x)).collect()
+}
+
+fn snapshot(bc: &Blockchain) -> String {
+    let tiph = bc.blockring.get_latest_block_id();
+    let tip = bc.blockring.get_latest_block_hash();
+    let mut stored: Vec<String> = bc
+        .blocks
+        .iter()
+        .map(|(h, b)| format!("[\"{}\",{},\"{}\",{}]", hx(h), b.id, hx(&b.previous_block_hash), b.in_longest_chain))
+        .collect();
+    stored.sort();
+    let top = std::cmp::max(tiph, bc.last_block_id);
+    let mut lc: Vec<String> = vec![];
+    for id in 1..=top {
+        if let Some(h) = bc.blockring.get_longest_chain_block_hash_at_block_id(id) {
+            lc.push(format!("[{},\"{}\"]", id, hx(&h)));
+        }
+    }
+    let mut utxo: Vec<String> = bc
+        .utxoset
+        .iter()
+        .map(|(k, v)| format!("\"{}{}\"", if *v { "" } else { "F" }, hx(k)))
+        .collect();
+    utxo.sort();
+    format!(
+        "{{\"tip\":\"{}\",\"tiph\":{},\"top\":{},\"g\":{},\"stored\":[{}],\"lc\":[{}],\"utxo\":[{}]}}",
+        if tiph == 0 { String::new() } else { hx(&tip) },
+        tiph,
+        bc.last_block_id,
+        bc.genesis_period,
+        stored.join(","),
+        lc.join(","),
+        utxo.join(",")
+    )
+}
+
+/// to be called right before `Blockchain::add_block`; None when recording is off
+pub fn before_add(bc: &Blockchain, block: &Block, loaded: bool) -> Option<String> {
+    std::env::var("VERIF_REPO_TRACE").ok()?;
+    let _ = drain();
+    let ins: Vec<String> = block
+        .transactions
+        .iter()
+        .flat_map(|t| t.from.iter())
+        .filter(|s| s.amount > 0)
+        .map(|s| format!("\"{}\"", hx(&s.utxoset_key)))
+        .collect();
+    let outs: Vec<String> = block
+        .transactions
+        .iter()
+        .flat_map(|t| t.to.iter())
+        .filter(|s| s.amount > 0)
+        .map(|s| format!("\"{}\"", hx(&s.utxoset_key)))
+        .collect();
+    Some(format!(
+        "\"chain\":{},\"loaded\":{},\"b\":\"{}\",\"id\":{},\"prev\":\"{}\",\"gt\":{},\"bf\":{},\"ins\":[{}],\"outs\":[{}],\"pre\":{}",
+        bc as *const Blockchain as usize,
+        loaded,
+        hx(&block.hash),
+        block.id,
+        hx(&block.previous_block_hash),
+        block.has_golden_ticket,
+        block.burnfee,
+        ins.join(","),
+        outs.join(","),
+        snapshot(bc)
+    ))
+}
+
+pub fn after_add(bc: &Blockchain, pre: Option<String>, res: &AddBlockResult) {
+    let (Some(pre), Ok(path)) = (pre, std::env::var("VERIF_REPO_TRACE")) else {
+        return;
+    };
+    let name = match res {
+        AddBlockResult::BlockAddedSuccessfully(_, true, _) => "AddedLc",
+        AddBlockResult::BlockAddedSuccessfully(_, false, _) => "AddedSide",
+        AddBlockResult::BlockAlreadyExists => "Exists",
+        AddBlockResult::FailedButRetry(_, _, _) => "Retry",
+        AddBlockResult::FailedNotValid => "Invalid",
+    };
+    let steps: Vec<String> = drain()
+        .into_iter()
+        .map(|s| match s {
+            Step::Wind(h, ok) => format!("[\"W\",\"{}\",{}]", hx(&h), ok),
+            Step::Unwind(h) => format!("[\"U\",\"{}\"]", hx(&h)),
+            Step::BudgetExceeded => "[\"B\",\"\"]".to_string(),
+        })
+        .collect();
+    let line = format!(
+        "{{\"seq\":{},{},\"res\":\"{}\",\"steps\":[{}],\"post\":{}}}\n",
+        SEQ.fetch_add(1, Ordering::SeqCst),
+        pre,
+        name,
+        steps.join(","),
+        snapshot(bc)
+    );
+    let _g = OUT.lock();
+    if let Ok(mut f) = std::fs::OpenOptions::new().create(true).append(true).open(path) {
+        let _ = f.write_all(line.as_bytes());
+    }
+}
